@@ -24,7 +24,7 @@ import (
 
 // "ab"/"xa" end in other IDs of the alphabet: an ID is a whole key, not a suffix
 // "a.tmp", "a~", "a.bak" look like the scratch names an atomic-write scheme might use for "a" - they are IDs like any other
-var kvIDs = []string{"a", "b", "c", "current", "next", "roots", "ab", "xa", "a.tmp", "a~", "a.bak", ".a"} // ".a": a name some tools treat as hidden
+var kvIDs = []string{"a", "b", "c", "current", "next", "roots", "ab", "xa", "a.tmp", "a~", "a.bak", ".a", "k+1", "k 1", "k%2B1"} // ".a": a name some tools treat as hidden
 var kvTypes = []string{"NodeCredentials", "NodeInformation", "RootCertificates", "ServerLedActivationToken"}
 
 func kvListable(t string) bool { return t != "ServerLedActivationToken" }
